@@ -423,6 +423,8 @@ def run(ck):
     if ck.shard == 0:
         handled_monitor(ck, g)
         ck.require("handled/covered", "ctor/half_precision")
+        from .. import history
+        history.lifecycle(ck)          # operations on operands that went through deepcopy / pickle / save+load
     if ck.shard == 1 % ck.nshards:
         from .c06_purity import purity_monitor
         purity_monitor(ck, g)
